@@ -20,21 +20,24 @@ def run(tier, seed, work, replay):
     rng = random.Random(seed)
     passes = ["right", "wrong", "empty", "prefix", "suffix", "upper"]
     cases = [{"kind": "sweep"}]
-    inj = [{"pass": p, "cert": c, "tls": t} for p in passes for c in (True, False) for t in (True, False)]
+    inj = [{"pass": p, "cert": c, "tls": t, "via": "http"} for p in passes for c in (True, False) for t in (True, False)]
+    inj += [{"pass": p, "cert": False, "tls": False, "via": "aws"} for p in passes]
     # every single injection on every kind of key file, then all ordered pairs around the right one, then random sequences
-    for f in ("ok", "ed", "edbad", "rsabad", "edprimary", "ecprimary521"):
+    for f in ("ok", "ed", "edbad", "rsabad", "edprimary", "ecprimary521", "edotherpass"):
         for a in inj:
             cases.append({"kind": "sequence", "file": f, "steps": [a]})
-    good = {"pass": "right", "cert": True, "tls": True}
+    good = {"pass": "right", "cert": True, "tls": True, "via": "http"}
+    goodaws = {"pass": "right", "cert": False, "tls": False, "via": "aws"}
     # worlds whose list of published keys is preloaded (keymaster_public_keys_filename): after the unseal the keys
     # that sign must be published whatever the list already held
     for f in ("ed:preed", "ed:prersa", "ed:preforeign", "ed:premix", "ok:prersa", "ok:preforeign"):
         cases.append({"kind": "sequence", "file": f, "steps": [good]})
-        cases.append({"kind": "sequence", "file": f, "steps": [{"pass": "wrong", "cert": True, "tls": True}, good, good]})
+        cases.append({"kind": "sequence", "file": f, "steps": [{"pass": "wrong", "cert": True, "tls": True, "via": "http"}, good, good]})
+        cases.append({"kind": "sequence", "file": f, "steps": [goodaws]})
     for a in inj:
         cases.append({"kind": "sequence", "file": "ok", "steps": [a, good, a, good]})
     for _ in range(20 if tier == "quick" else 200):
-        cases.append({"kind": "sequence", "file": rng.choice(["ok", "ok", "ed", "edbad", "rsabad", "edprimary", "ecprimary521"]),
+        cases.append({"kind": "sequence", "file": rng.choice(["ok", "ok", "ed", "edbad", "rsabad", "edprimary", "ecprimary521", "edotherpass"]),
                       "steps": [rng.choice(inj + [good, good]) for _ in range(rng.randint(2, 6))]})
     ncon = 12 if tier == "quick" else 120
     for _ in range(ncon):
@@ -87,7 +90,8 @@ def run(tier, seed, work, replay):
     cov["unsealed_by_injection"] = sum(1 for e in evs if e["ev"] == "Inject" and e["out"]["ok"])
     cov["concurrent_runs"] = sum(1 for e in evs if e["ev"] == "Concurrent")
     cov["rule"] = ("every route extracted from main() x method x credential on a sealed server; every passphrase variant x client "
-                   "certificate x TLS on four key-file worlds (incl. right passphrase but key material that fails to load), "
+                   "certificate x TLS (and the secrets-manager route) on seven key-file worlds (incl. right passphrase but key "
+                   "material that fails to load or opens only in part), "
                    "sequences around a successful unseal, seeded random sequences; concurrent injectors + requesters under -race")
     res.sample(evs[0])
     res.sample([e for e in evs if e["ev"] == "Inject"][0])
@@ -100,7 +104,7 @@ def run(tier, seed, work, replay):
             if "certreq" in ev["args"]:
                 sig["certreq"] = ev["args"]["certreq"]
         elif ev["ev"] == "Inject":
-            sig.update({"pass": ev["args"]["pass"], "cert": ev["args"]["cert"], "tls": ev["args"]["tls"]})
+            sig.update({"pass": ev["args"]["pass"], "cert": ev["args"]["cert"], "tls": ev["args"]["tls"], "via": ev["args"].get("via", "http")})
         # sequential table rows are deterministic; concurrent runs are re-observed by the next seed: report as seen
         if res.classify(sig, ev, known) == "violation":
             res.sample({"deviation": d, "event": ev})
